@@ -24,7 +24,7 @@
       5. a criterion for prefix-freeness that the key builders of certmagic meet
          ([prefix_free_by_depth]). *)
 From CM Require Import Lib.Str FileSys.Model FileSys.Proofs.
-From CM Require Issuance.Model Issuance.Base Bundle.Model Bundle.Proofs.
+From CM Require Issuance.Model Issuance.Base Bundle.Model Bundle.Proofs Gen.Consts Safe.Model Safe.KeysProofs Clean.Model.
 Open Scope N_scope.
 
 (** * 0. The abstract atomic map *)
@@ -470,3 +470,340 @@ Proof.
   destruct b as [|y b]; [discriminate|]. cbn in Hp. apply andb_true_iff in Hp. destruct Hp as [Hp _].
   apply str_eqb_eq in Hp. subst. reflexivity.
 Qed.
+
+(** * 4. The other models' storage IS the atomic map *)
+
+(** small list facts for transporting event-by-event agreements *)
+Lemma combine_map {A B C D} (f : A -> C) (g : B -> D) (a : list A) : forall b,
+  combine (map f a) (map g b) = map (fun x => (f (fst x), g (snd x))) (combine a b).
+Proof. induction a as [|x a IH]; intros [|y b]; cbn; [reflexivity..|]. rewrite IH. reflexivity. Qed.
+Lemma Forall2_map_r {A B C} (P : A -> C -> Prop) (h : B -> C) (l : list A) : forall l2,
+  Forall2 (fun a b => P a (h b)) l l2 -> Forall2 P l (map h l2).
+Proof. intros l2 H. induction H; cbn; constructor; assumption. Qed.
+Lemma Forall2_impl {A B} (P Q : A -> B -> Prop) l l2 :
+  (forall a b, P a b -> Q a b) -> Forall2 P l l2 -> Forall2 Q l l2.
+Proof. intros HPQ H. induction H; constructor; auto. Qed.
+
+(** ** 4a. Issuance: [sto] / [sput] and the storage cases of [exec] *)
+Module IssCorr.
+  Import CM.Issuance.Model CM.Issuance.Base.
+  Local Open Scope nat_scope.
+
+  (** Issuance's update of the storage function is the abstract update *)
+  Lemma sput_is_aput : sput = aput skey_eqb.
+  Proof. reflexivity. Qed.
+
+  (** the events that reached the storage: a Store / Load / Delete / Exists whose logged outcome is
+      0 (ok / true) or 1 (not found / false); outcomes 2 (injected error, cancelled context) and
+      3 (panic) are calls that Issuance assumes to have had NO effect *)
+  Definition sto_ev (e : ev) : bool :=
+    match e_op e with
+    | OStore _ | ODelete _ | OLoad _ | OExists _ => match e_out e with 0 | 1 => true | _ => false end
+    | _ => false
+    end.
+  (** event [e] is the abstract operation [o] with result [r] *)
+  Definition ev_agrees (e : ev) (o : aop skey value) (r : ares value) : Prop :=
+    match e_op e, o with
+    | OStore k, AStore k' _ => k = k' /\ e_out e = 0 /\ r = AOk
+    | ODelete k, ADelete k' => k = k' /\ e_out e = 0 /\ r = AOk
+    | OLoad k, ALoad k' => k = k' /\ match r with AVal _ => e_out e = 0 | ANotExist => e_out e = 1 | _ => False end
+    | OExists k, AExists k' => k = k' /\ r = ABool (Nat.eqb (e_out e) 0)
+    | _, _ => False
+    end.
+
+  Ltac fin :=
+    cbn [astep snd fst]; unfold is_some;
+    match goal with |- context [sto ?s ?k] => destruct (sto s k) eqn:? end;
+    simpl in *; try discriminate; try congruence; try reflexivity.
+
+  (** every thread step (all 50 pcs, every fault, every choice bit) leaves the storage alone
+      or performs exactly one abstract operation on it, the one its event names *)
+  Lemma tstep_is_astep t th s f b th' s' e :
+    tstep t th s f b = Some (th', s', e) ->
+    (sto_ev e = false /\ sto s' = sto s) \/
+    (sto_ev e = true /\
+     exists o, fst (astep skey_eqb (sto s) o) = sto s' /\ ev_agrees e o (snd (astep skey_eqb (sto s) o))).
+  Proof.
+    intros H. tstep_start H th. all: tstep_full H. all: inv_some H.
+    all: try (left; split; reflexivity).
+    all: repeat match goal with
+         | |- context [orb ?c _] => is_var c; destruct c; simpl in *; try discriminate
+         end.
+    all: try (left; split; reflexivity).
+    all: right; split; [reflexivity|].
+    all: first
+      [ eexists (AStore _ _); split; [reflexivity | repeat split; reflexivity]
+      | eexists (ADelete _); split; [reflexivity | repeat split; reflexivity]
+      | eexists (ALoad _); split; [reflexivity|]; split; [reflexivity|]; fin
+      | eexists (AExists _); split; [reflexivity|]; split; [reflexivity|]; fin ].
+  Qed.
+
+  (** every run: the storage is the atomic map driven by the run's storage events *)
+  Theorem runs_is_arun ok s es s' : runs ok s es s' ->
+    exists ops, fst (arun skey_eqb (sto (sh s)) ops) = sto (sh s') /\
+      Forall2 (fun e x => ev_agrees e (fst x) (snd x)) (filter sto_ev es)
+              (combine ops (snd (arun skey_eqb (sto (sh s)) ops))).
+  Proof.
+    intros R. induction R as [s|s l s1 e es s2 _ Hstep _ IH].
+    - exists []. split; [reflexivity | constructor].
+    - destruct (step_inv _ _ _ _ Hstep) as (th & th' & sh' & _ & Ht & ->). cbn [sh] in IH.
+      destruct IH as (ops & Hfin & Hall).
+      destruct (tstep_is_astep _ _ _ _ _ _ _ _ Ht) as [[He Hs]|[He (o & Ho & Hag)]]; cbn [filter]; rewrite He.
+      + exists ops. rewrite <- Hs. split; assumption.
+      + exists (o :: ops). cbn [arun].
+        destruct (astep skey_eqb (sto (sh s)) o) as [m1 r]. cbn [fst snd] in Ho, Hag. subst m1.
+        destruct (arun skey_eqb (sto sh') ops) as [m2 rs]. cbn [fst snd combine] in *.
+        split; [assumption|]. constructor; assumption.
+  Qed.
+
+  (** *** composition with Section 3: Issuance on FileStorage *)
+  Section OnFileStorage.
+    Variable emb : skey -> path.
+    Variable enc : value -> FileSys.Model.value.
+    Hypothesis emb_inj : forall a b, emb a = emb b -> a = b.
+    Hypothesis emb_pf : prefix_free (image emb).
+
+    (** event [e] of the Issuance run is the FileStorage call [o] with observation [b] *)
+    Definition ev_fs_agrees (e : ev) (o : FileSys.Model.op) (b : obs) : Prop :=
+      match e_op e, o with
+      | OStore k, OpStore p _ => p = emb k /\ e_out e = 0 /\ ocls b = FileSys.Model.ROk
+      | ODelete k, OpDelete p => p = emb k /\ e_out e = 0 /\ ocls b = FileSys.Model.ROk
+      | OLoad k, OpLoad p =>
+          p = emb k /\ ((e_out e = 0 /\ ocls b = FileSys.Model.ROk) \/ (e_out e = 1 /\ ocls b = RNotExist))
+      | OExists k, OpExists p => p = emb k /\ ocls b = FileSys.Model.ROk /\ oflag b = Nat.eqb (e_out e) 0
+      | _, _ => False
+      end.
+
+    Lemma agrees_transport e o r :
+      ev_agrees e o r -> ev_fs_agrees e (fop (eop emb enc o)) (fobs (eres enc r)).
+    Proof.
+      unfold ev_agrees, ev_fs_agrees. destruct (e_op e); try contradiction; destruct o; try contradiction; cbn.
+      - intros [-> ->]. cbn. auto.
+      - intros [-> H]. split; [reflexivity|]. destruct r; try contradiction; cbn; auto.
+      - intros (-> & -> & ->). cbn. auto.
+      - intros (-> & -> & ->). cbn. auto.
+    Qed.
+
+    (** Every run of the Issuance LTS (any threads, faults, schedules) from a storage that the tree
+        [fs] represents is reproduced by FileStorage: there is a sequence of FileStorage calls, one
+        per storage event of the run and on the embedded key of that event, whose results in the
+        FileSys model are the outcomes the Issuance model logged, and the final tree represents
+        the final Issuance storage. *)
+    Theorem issuance_on_filestorage ok s es s' fs :
+      runs ok s es s' -> ERep emb enc fs (sto (sh s)) ->
+      exists fops,
+        Forall2 (fun e x => ev_fs_agrees e (fst x) (snd x)) (filter sto_ev es)
+                (combine fops (snd (fs_run fs fops))) /\
+        ERep emb enc (fst (fs_run fs fops)) (sto (sh s')).
+    Proof.
+      intros R HR. destruct (runs_is_arun ok s es s' R) as (ops & Hfin & Hall).
+      destruct (fs_refines_embedded skey_eqb skey_eqb_eq emb enc emb_inj emb_pf ops fs _ HR) as [Hobs HR'].
+      exists (map fop (map (eop emb enc) ops)). rewrite Hfin in HR'. split; [|exact HR'].
+      rewrite Hobs, !map_map, combine_map. apply Forall2_map_r.
+      eapply Forall2_impl; [|exact Hall]. intros e [o r] H. cbn [fst snd] in *.
+      apply agrees_transport. exact H.
+    Qed.
+  End OnFileStorage.
+
+  (** the hypotheses are satisfiable: bundle keys at depth 3 under "1", rw_test keys and
+      last_clean.json at depth 1 *)
+  Definition kind_str (j : kind) : str := match j with KKey => [1] | KCrt => [2] | KMeta => [3] end%N.
+  Definition emb_ex (k : skey) : path :=
+    match k with
+    | SK n j => [[1%N]; [N.of_nat n]; kind_str j]
+    | RW t => [[2%N; N.of_nat t]]
+    | SLast => [[3%N]]
+    end.
+  Definition emb_ex_class (p : path) : nat := match p with [c] :: _ => match c with 1%N => 3 | _ => 1 end | _ => 1 end.
+  Example emb_ex_ok : (forall a b, emb_ex a = emb_ex b -> a = b) /\ prefix_free (image emb_ex) /\ nonroot (image emb_ex).
+  Proof.
+    split; [|split].
+    - intros [n j| |] [m i| |]; cbn; intros H; try discriminate; try reflexivity.
+      + injection H as H1 H2. apply Nat2N.inj in H1. subst. destruct j, i; cbn in H2; try discriminate; reflexivity.
+      + injection H as H. apply Nat2N.inj in H. subst. reflexivity.
+    - intros a b [ka ->] [kb ->] Hp. apply is_prefix_same_length; [assumption|].
+      destruct ka, kb; cbn in Hp |- *; try reflexivity; rewrite ?andb_false_r in Hp; try discriminate.
+    - intros a [k ->]. destruct k; discriminate.
+  Qed.
+
+  (** a complete obtain (pre-check, checkStorage's Store / Load / Delete of rw_test, lock, re-check,
+      issue, the three Stores, unlock) from the empty storage, on the empty tree *)
+  Definition ex_cfg : tcfg := TCfg (PObtain false) 0 0 0 0 false true false false.
+  Example issuance_on_filestorage_ex :
+    exists s es, runs any_label (init_state [ex_cfg] (fun _ => None)) es s /\
+      length (filter sto_ev es) = 8 /\ sto (sh s) (SK 0 KCrt) <> None /\
+      ERep emb_ex (fun _ => []) [] (sto (sh (init_state [ex_cfg] (fun _ => None)))).
+  Proof.
+    destruct (run (init_state [ex_cfg] (fun _ => None)) (repeat (Label 0 FNone true) 15)) as [[s es]|] eqn:R;
+      [|vm_compute in R; discriminate].
+    exists s, es. split; [exact (run_runs _ _ _ _ R)|].
+    vm_compute in R. injection R as <- <-.
+    split; [reflexivity|]. split; [vm_compute; discriminate|].
+    apply ERep_empty. apply emb_ex_ok.
+  Qed.
+End IssCorr.
+
+(** ** 4b. Bundle: the storage prims of the fault monad *)
+Module BundleCorr.
+  Import CM.Bundle.Model CM.Bundle.Proofs.
+
+  (** the association list read through [sget] is the map; [sput] / [sdel] are the abstract updates *)
+  Lemma sput_is_aput st k v k' : sget (sput st k v) k' = aput fkey_eqb (sget st) k (Some v) k'.
+  Proof. apply sget_sput. Qed.
+  Lemma sdel_is_aput st k k' : sget (sdel st k) k' = aput fkey_eqb (sget st) k None k'.
+  Proof. apply sget_sdel. Qed.
+
+  (** a prim that the plan does not fail performs the abstract step; if the plan kills the process
+      at this index the result is [Dead] and THE EFFECT HAS TAKEN PLACE *)
+  Lemma store_is_astep pl k v w : p_fail pl (w_cnt w) = false ->
+    (forall k', sget (w_st (snd (store pl k v w))) k' = fst (astep fkey_eqb (sget (w_st w)) (AStore k v)) k') /\
+    fst (store pl k v w) = if crash_at pl (w_cnt w) then Dead else Ok tt.
+  Proof.
+    intros Hf. unfold store, prim. rewrite Hf. split.
+    - intros k'. destruct (crash_at pl (w_cnt w)); cbn; apply sget_sput.
+    - destruct (crash_at pl (w_cnt w)); reflexivity.
+  Qed.
+  Lemma delete_is_astep pl k w : p_fail pl (w_cnt w) = false ->
+    (forall k', sget (w_st (snd (delete pl k w))) k' = fst (astep fkey_eqb (sget (w_st w)) (ADelete k)) k') /\
+    fst (delete pl k w) = if crash_at pl (w_cnt w) then Dead else Ok tt.
+  Proof.
+    intros Hf. unfold delete, prim. rewrite Hf. split.
+    - intros k'. destruct (crash_at pl (w_cnt w)); cbn; apply sget_sdel.
+    - destruct (crash_at pl (w_cnt w)); reflexivity.
+  Qed.
+  Lemma load_is_astep pl k w : p_fail pl (w_cnt w) = false ->
+    w_st (snd (load pl k w)) = w_st w /\
+    fst (load pl k w) = if crash_at pl (w_cnt w) then Dead else
+                        match snd (astep fkey_eqb (sget (w_st w)) (ALoad k)) with
+                        | AVal v => Ok v
+                        | _ => Fail ENotExist
+                        end.
+  Proof.
+    intros Hf. unfold load, prim. rewrite Hf. cbn [astep snd]. unfold w_st.
+    destruct (sget (k_st (w_core w)) k); destruct (crash_at pl (w_cnt w)); split; reflexivity.
+  Qed.
+  Lemma exists_is_astep pl k w : p_fail pl (w_cnt w) = false ->
+    w_st (snd (exists_ pl k w)) = w_st w /\
+    fst (exists_ pl k w) = if crash_at pl (w_cnt w) then Dead else
+                           match snd (astep fkey_eqb (sget (w_st w)) (AExists k)) with
+                           | ABool b => Ok b
+                           | _ => Ok false
+                           end.
+  Proof.
+    intros Hf. unfold exists_, prim. rewrite Hf. cbn [astep snd]. unfold w_st, is_some.
+    destruct (sget (k_st (w_core w)) k); destruct (crash_at pl (w_cnt w)); split; reflexivity.
+  Qed.
+  (** a prim that the plan fails has NO effect on the storage (whether or not the process dies) *)
+  Lemma failed_prim_no_effect pl k v w : p_fail pl (w_cnt w) = true ->
+    w_st (snd (store pl k v w)) = w_st w /\ w_st (snd (delete pl k w)) = w_st w /\
+    w_st (snd (load pl k w)) = w_st w /\ w_st (snd (exists_ pl k w)) = w_st w.
+  Proof.
+    intros Hf. unfold store, delete, load, exists_, prim. rewrite Hf.
+    destruct (crash_at pl (w_cnt w)); repeat split; reflexivity.
+  Qed.
+  (** Delete of a site directory ([TDir], deleteSiteAssets) is modelled as the flat Deletes of the
+      four files Bundle knows in that directory: the only place where Bundle leans on the tree
+      semantics (RemoveAll removes whatever else lies below, and the directory) *)
+  Lemma delete_dir_is_aruns st i d k' :
+    sget (sdel_dir st i d) k' =
+    fst (arun fkey_eqb (sget st) [ADelete (i, d, FKey); ADelete (i, d, FCrt); ADelete (i, d, FMeta); ADelete (i, d, FComp)]) k'.
+  Proof. unfold sdel_dir. cbn [arun astep fst]. rewrite !sget_sdel. unfold aput. reflexivity. Qed.
+
+  Example store_is_astep_ex :
+    let w := snd (store no_faults (0%nat, 1, FKey) (VKey 7) empty_world) in
+    sget (w_st w) (0%nat, 1, FKey) = Some (VKey 7) /\ sget (w_st w) (0%nat, 1, FCrt) = None /\
+    fst (load no_faults (0%nat, 1, FKey) w) = Ok (VKey 7).
+  Proof. vm_compute. repeat split; reflexivity. Qed.
+End BundleCorr.
+
+(** ** 5b. certmagic's key builders ([Safe.Model]) meet the criterion
+
+    The path of a key string on the tree is [kc key] (its non-empty, non-"." components: what
+    FileStorage.Filename's filepath.Join leaves).  The certificate asset keys
+    certificates/<issuer>/<name>/<name><ext> and the OCSP staple keys ocsp/<name>-<hash>, for
+    issuers and names whose sanitized form is one real component, form a prefix-free key set. *)
+Module KeysCorr.
+  Import CM.Safe.Model CM.Safe.KeysProofs CM.Gen.Consts.
+  Section K.
+    Variables (lower : N -> N) (is_space : N -> bool).
+    Hypothesis H2 : forall c, is_upper_ascii (lower c) = false.
+    Notation sf := (safe lower is_space).
+    (** the sanitized name is one real path component (not empty, not ".") *)
+    Definition one_comp (x : str) : Prop := kc (sf x) = [sf x].
+    Definition K_certs (p : path) : Prop :=
+      exists ext i d, noslash ext /\ has_nondot ext = true /\ one_comp i /\ one_comp d /\
+                      p = kc (site_asset lower is_space ext i d).
+    Definition K_ocsp (p : path) : Prop :=
+      exists first hash, noslash hash /\ has_nondot hash = true /\ p = kc (ocsp_staple lower is_space first hash).
+    Definition K_cm (p : path) : Prop := K_certs p \/ K_ocsp p.
+
+    Lemma K_certs_shape p : K_certs p -> exists a b c, p = [prefix_certs; a; b; c].
+    Proof.
+      intros (ext & i & d & He & Hd & Hi & Hdd & ->).
+      destruct (site_asset_ns lower is_space H2 ext i d He Hd) as [-> _].
+      destruct (certs_prefix_ns lower is_space H2 i) as [-> _].
+      unfold one_comp in Hi, Hdd. rewrite Hi, Hdd. cbn [app]. eauto.
+    Qed.
+    Lemma K_ocsp_shape p : K_ocsp p -> exists f, p = [prefix_ocsp; f].
+    Proof.
+      intros (first & hash & Hh & Hd & ->).
+      destruct (ocsp_staple_ns lower is_space H2 first hash Hh Hd) as (f & -> & _). eauto.
+    Qed.
+
+    Definition cm_depth (h : option str) : nat :=
+      match h with Some c => if str_eqb c prefix_certs then 4 else 2 | None => 0 end.
+
+    Theorem certmagic_keys_prefix_free : prefix_free K_cm /\ nonroot K_cm.
+    Proof.
+      assert (Hnr : nonroot K_cm).
+      { intros a [H|H]; [destruct (K_certs_shape a H) as (x & y & z & ->) | destruct (K_ocsp_shape a H) as (f & ->)];
+          discriminate. }
+      split; [|exact Hnr]. apply (prefix_free_by_depth K_cm cm_depth Hnr).
+      intros a [H|H].
+      - destruct (K_certs_shape a H) as (x & y & z & ->). cbn [hd_error cm_depth length].
+        replace (str_eqb prefix_certs prefix_certs) with true by (symmetry; apply str_eqb_eq; reflexivity).
+        reflexivity.
+      - destruct (K_ocsp_shape a H) as (f & ->). cbn [hd_error cm_depth length].
+        replace (str_eqb prefix_ocsp prefix_certs) with false by (vm_compute; reflexivity). reflexivity.
+    Qed.
+  End K.
+
+  (** the side condition on the issuer is needed: with an issuer key that sanitizes to nothing the
+      certificate of name "x" is a proper prefix of the private key of name "x.crt" under issuer "x" *)
+  Lemma certs_keys_empty_issuer_refuted :
+    exists i1 d1 i2 d2,
+      proper_prefix (kc (site_cert ascii_lower ascii_space i1 d1)) (kc (site_key ascii_lower ascii_space i2 d2)) = true.
+  Proof. exists [], [120], [120], [120; 46; 99; 114; 116]. vm_compute. reflexivity. Qed.
+
+  Example K_cm_inhabited :
+    K_cm ascii_lower ascii_space (kc (site_cert ascii_lower ascii_space [120] [121])) /\
+    kc (site_cert ascii_lower ascii_space [120] [121]) = [prefix_certs; [120]; [121]; [121; 46; 99; 114; 116]].
+  Proof.
+    split; [|vm_compute; reflexivity]. left. exists ext_crt, [120], [121].
+    split; [intros [H|[H|[H|[H|[]]]]]; discriminate|]. repeat split; vm_compute; reflexivity.
+  Qed.
+End KeysCorr.
+
+(** ** 4c. Clean (C18) does NOT use the flat map: its store is the key TREE
+
+    [Clean.Model] keys are slash-separated strings; Delete is the prefix delete ([remove] drops every
+    key the deleted one [covers]), List returns the direct children including implied directories,
+    Stat of a directory key succeeds (non-terminal), Store onto a directory fails.  These are the
+    cases (ii)-(v) above on the side of FileSys.Model, so CleanStorage's storage assumptions are the
+    tree semantics FileStorage has, not the flat map (CleanStorage relies on them: it Lists
+    "certificates" level by level and Deletes empty site folders). *)
+Module CleanCorr.
+  Import CM.Clean.Model.
+  Definition f0 : node := File 0 (Cls None None None).
+  Definition c_a : key := [97%N].
+  Definition c_ab : key := [97%N; 47%N; 98%N].
+  Definition env0 : env := Env [] [] None true.
+  Lemma clean_storage_is_tree_semantics :
+    let st0 := [(c_ab, f0)] in
+    lookup (remove c_a st0) c_ab = None /\                        (* Delete "a" removes "a/b" *)
+    list_pure true st0 c_a = Some [c_ab] /\                       (* "a" lists although nothing is stored at "a" *)
+    stat_pure st0 c_a = StatDir /\                                (* the directory key exists *)
+    fst (do_load env0 c_a (St st0 [])) = LErr /\                  (* Load of a directory: an error, not not-exist *)
+    fst (do_store env0 c_a f0 (St st0 [])) = false.               (* Store onto a directory fails *)
+  Proof. vm_compute. repeat split; reflexivity. Qed.
+End CleanCorr.
